@@ -488,4 +488,95 @@ theorem py_az_mean_state : (PyVec.az_mean_fn_frequency.ok && PyVec.az_mean_fn_am
     rw [hw]
     exact ⟨rfl, rfl⟩
 
+/-! ## mean ± n standard deviations of a traditional result (the rejection bounds of the frequency-domain algorithm) -/
+
+/-- the closing step `_nth_std_factory(n, distribution, mean, std)` on possibly-NaN scalars -/
+noncomputable def factoryO (dm : List (String × String)) (n : Option ℝ) (name : String) (m s : Option ℝ) : Option (Option ℝ) :=
+  if List.lookup name dm = some "normal" then some (oadd m (omul n s))
+  else if List.lookup name dm = some "lognormal" then some (omap Transc.exp (oadd (omap Transc.log m) (omul n s)))
+  else none
+
+/-- `nth_std_fn_frequency(n, distribution)` is the composition the source shows: the mean accessor, the standard-deviation accessor (each may raise), then
+the factory -/
+theorem py_trad_nth_decomp : (PyVec.trad_nth_std_fn_frequency.ok && PyVec.trad_nth_std_fn_amplitude.ok && PyVec.trad_mean_fn_frequency.ok &&
+      PyVec.trad_mean_fn_amplitude.ok && PyVec.trad_std_fn_frequency.ok && PyVec.trad_std_fn_amplitude.ok) = false ∨
+    ∀ (n : Option ℝ) (name : String) (stored : List (Option ℝ)) (vPeak : List Bool),
+      PyVec.trad_nth_std_fn_frequency distributionMap n name stored vPeak =
+        (match PyVec.trad_mean_fn_frequency distributionMap name stored vPeak, PyVec.trad_std_fn_frequency distributionMap name stored vPeak with
+          | some m, some s => factoryO distributionMap n name m s
+          | _, _ => none) ∧
+      PyVec.trad_nth_std_fn_amplitude distributionMap n name stored vPeak =
+        (match PyVec.trad_mean_fn_amplitude distributionMap name stored vPeak, PyVec.trad_std_fn_amplitude distributionMap name stored vPeak with
+          | some m, some s => factoryO distributionMap n name m s
+          | _, _ => none) := by
+  bridge_cases
+    intro n name stored vPeak
+    unfold PyVec.trad_nth_std_fn_frequency PyVec.trad_nth_std_fn_amplitude PyVec.trad_mean_fn_frequency PyVec.trad_mean_fn_amplitude
+      PyVec.trad_std_fn_frequency PyVec.trad_std_fn_amplitude factoryO
+    simp only []
+    cases h : List.lookup (pyLower name) distributionMap with
+    | none => simp
+    | some c =>
+      rcases ofString_of_lookup h with ⟨rfl, hd⟩ | ⟨rfl, hd⟩ <;> simp
+
+theorem lookup_key_mem {k c : String} : ∀ {l : List (String × String)}, List.lookup k l = some c → k ∈ l.map Prod.fst
+  | [], h => by simp at h
+  | (a, b) :: l, h => by
+    rw [List.lookup_cons] at h
+    split at h
+    · rename_i heq; simp only [beq_iff_eq] at heq; simp [heq]
+    · simpa using Or.inr (lookup_key_mem h)
+
+/-- every spelling the alias table knows is lower case already -/
+theorem ofString_lower {name : String} {d : Dist} (h : Dist.ofString name = some d) : pyLower name = name := by
+  unfold Dist.ofString at h
+  cases hl : List.lookup name distributionMap with
+  | none => rw [hl] at h; simp at h
+  | some c =>
+    have hk := lookup_key_mem hl
+    simp only [distributionMap, List.map_cons, List.map_nil, List.mem_cons, List.not_mem_nil, or_false] at hk
+    rcases hk with rfl | rfl | rfl <;> (unfold pyLower; apply String.toList_inj.mp; simp [String.toLower, String.toList_map])
+
+theorem factoryO_eq (n : ℝ) (name : String) (d : Dist) (m s : Option ℝ) (h : Dist.ofString name = some d) :
+    factoryO distributionMap (some n) name m s = some (nthStdO n d m s) := by
+  unfold Dist.ofString at h
+  unfold factoryO
+  cases hl : List.lookup name distributionMap with
+  | none => rw [hl] at h; simp at h
+  | some c =>
+    rw [hl] at h
+    have hc : c = "lognormal" ∨ c = "normal" := by
+      have := lookup_mem_values hl
+      simpa [distributionMap] using this
+    rcases hc with rfl | rfl
+    · simp only [Option.some.injEq] at h; subst h
+      cases m <;> cases s <;> simp [nthStdO, nthStd, oadd, omul, omap, lift2]
+    · simp only [Option.some.injEq] at h; subst h
+      cases m <;> cases s <;> simp [nthStdO, nthStd, oadd, omul, lift2]
+
+/-- on every state of a traditional result and for every spelling `name` of a distribution `d` the alias table knows, the translated
+`nth_std_fn_frequency(n, name)` / `nth_std_fn_amplitude(n, name)` return the model's `nthStdFn` / `nthStdAmp` — the values the rejection bounds of `Props/C06*.lean`
+(`bounds_lognormal`, `bounds_normal`, `iter_keeps_iff`) and the ±n clauses of `Props/C05.lean` are about -/
+theorem py_trad_nth_state : (PyVec.trad_nth_std_fn_frequency.ok && PyVec.trad_nth_std_fn_amplitude.ok && PyVec.trad_mean_fn_frequency.ok &&
+      PyVec.trad_mean_fn_amplitude.ok && PyVec.trad_std_fn_frequency.ok && PyVec.trad_std_fn_amplitude.ok && PyVec.nanmean_weighted.ok && PyVec.nanstd_weighted.ok) = false ∨
+    ∀ (n : ℝ) (name : String) (d : Dist) (s : HvTrad ℝ), Dist.ofString name = some d →
+      PyVec.trad_nth_std_fn_frequency distributionMap (some n) name (s.peaks.map (fun p => p.map (·.1))) s.vPeak = some (s.nthStdFn n d) ∧
+      PyVec.trad_nth_std_fn_amplitude distributionMap (some n) name (s.peaks.map (fun p => p.map (·.2))) s.vPeak = some (s.nthStdAmp n d) := by
+  rcases py_trad_nth_decomp with h0 | hdec
+  · left; revert h0
+    cases PyVec.trad_nth_std_fn_frequency.ok <;> cases PyVec.trad_nth_std_fn_amplitude.ok <;> cases PyVec.trad_mean_fn_frequency.ok <;>
+      cases PyVec.trad_mean_fn_amplitude.ok <;> cases PyVec.trad_std_fn_frequency.ok <;> cases PyVec.trad_std_fn_amplitude.ok <;> simp
+  rcases py_trad_stats_state with h1 | hst
+  · left; revert h1
+    cases PyVec.trad_mean_fn_frequency.ok <;> cases PyVec.trad_mean_fn_amplitude.ok <;> cases PyVec.nanmean_weighted.ok <;>
+      cases PyVec.trad_std_fn_frequency.ok <;> cases PyVec.trad_std_fn_amplitude.ok <;> cases PyVec.nanstd_weighted.ok <;> simp
+  right
+  intro n name d s hd
+  have hlow : Dist.ofString (pyLower name) = some d := by rw [ofString_lower hd]; exact hd
+  obtain ⟨hmf, hma, hsf, hsa⟩ := hst name s
+  rw [hlow] at hmf hma hsf hsa
+  simp only [Option.map_some] at hmf hma hsf hsa
+  rw [(hdec (some n) name _ _).1, (hdec (some n) name _ _).2, hmf, hma, hsf, hsa]
+  exact ⟨factoryO_eq n name d _ _ hd, factoryO_eq n name d _ _ hd⟩
+
 end HV.Bridge
